@@ -83,4 +83,10 @@ def deleteVersion (s : Store) (v : Nat) (orphans : List NKey) : Store :=
     else s1.del (v, 1)
   | _ => s1.del (v, 1)
 
+/-- `DeleteVersionsFrom(n)` on the node keys: every record of a version ≥ n goes (`deleteRange`); when no
+    version survives (n at or below the first version) every record goes, also the re-keyed roots of pruned
+    versions below n (K35) -/
+def deleteFrom (s : Store) (first n : Nat) : Store :=
+  if n ≤ first then fun _ => none else fun k => if n ≤ k.1 then none else s k
+
 end Iavl.Roots
